@@ -36,6 +36,9 @@ CFGS = {
     "pp": ((True, True, False), (True, True, False)),
     "op": ((False, True, False), (True, True, False)),
     "of": ((False, True, True), (False, True, True)),       # filtering on both sides
+    "lci": ((False, False, False), (False, True, False)),   # mixed: local case-insensitive, remote case-sensitive
+    "rci": ((False, True, False), (False, False, False)),   # mixed: remote case-insensitive
+    "plci": ((True, False, False), (False, True, False)),
 }
 
 BASES = {
